@@ -89,13 +89,20 @@ def oracle(ctx, st, ob, with_q):
             out.append((i, [sum(R[r][c] * [a.x, a.y, a.z][c] for c in range(3)) + t[r] + k[r] for r in range(3)]))
         return out
 
+    only_hh = {}
+
     def is_bonded_image(mi, n, k):
         best = None
+        hh = True
         for i, p in image_atoms(mi, n, k):
             for b in atoms:
                 d = sc.glen(G, [p[0] - b.x, p[1] - b.y, p[2] - b.z])
-                if d > 0.2 and bonded(atoms[i], b, d) and (best is None or d < best):
-                    best = d
+                if d > 0.001 and bonded(atoms[i], b, d):      # an atom next to (not on) a symmetry element is bonded to its own image
+                    if best is None or d < best:
+                        best = d
+                    if not (atoms[i].ishydrogen and b.ishydrogen and atoms[i].an == b.an):
+                        hh = False
+        only_hh[(mi, n, k)] = best is not None and hh
         return best is not None, best
     for (mi, n, k) in images:
         ev += 1
@@ -121,7 +128,7 @@ def oracle(ctx, st, ob, with_q):
                 if missing:
                     common.add_violation(ctx, 'a fragment image directly bonded to the asymmetric unit is missing from the grown structure',
                                          dict(case, molecule=mi, operator=n, shift=list(k), bond_length=d), 'present', {'missing_atoms': missing[:4]},
-                                         cls=classify_missing(ctx, ob, G, atoms, ops, mi, n, k, d))
+                                         cls='image_bonded_only_through_hydrogen_hydrogen_contacts' if only_hh.get((mi, n, k)) else classify_missing(ctx, ob, G, atoms, ops, mi, n, k, d))
     return ev
 
 
